@@ -279,6 +279,7 @@ def finish(pid, tier, seed, cfg, reports, extra, t0, partial=False):
     backends = {}
     functions = []
     lemmas = []
+    slow = []
     samples = []
     for rep in reports:
         st = rep.get('status')
@@ -295,6 +296,7 @@ def finish(pid, tier, seed, cfg, reports, extra, t0, partial=False):
         for ob in rep['obligations']:
             n_obl += 1
             solver_s += ob.get('seconds', 0)
+            slow.append((round(ob.get('seconds', 0), 2), ob['name'], ob.get('backend', '')))
             if ob.get('disagreement'):
                 errors.append(f"{ob['name']}: back ends disagree {ob.get('second')}")
             if ob['result'] == 'unsat':
@@ -388,7 +390,8 @@ def finish(pid, tier, seed, cfg, reports, extra, t0, partial=False):
               coverage=dict(obligations=n_obl, discharged=n_dis,
                             checker_cmd=f"./check {pid} --tier {tier}",
                             trusted_base=TRUSTED_BASE + list(cfg.get('trusted', [])),
-                            functions_under_contract=functions, lemmas=lemmas, mutation_probe=canary_row, backends=backends, solver_seconds=round(solver_s, 3),
+                            functions_under_contract=functions, lemmas=lemmas, mutation_probe=canary_row,
+                            slowest_obligations=[dict(seconds=a, obligation=b, backend=c) for a, b, c in sorted(slow, reverse=True)[:5]], backends=backends, solver_seconds=round(solver_s, 3),
                             samples=samples or [dict(note='no non-trivial obligation sampled')],
                             known_findings=known_lines, bounded=bounded, frame_exemptions=frame_rows,
                             undecided=undecided, checker_errors=errors,
